@@ -123,8 +123,12 @@ func (repo *Repository) IsFull() (bool, error) {
 
 func (repo *Repository) GitCommand(callerArgs ...string) *exec.Cmd {
 	args := []string{
-		// Disable replace references when running our commands:
+		// Disable replace references when running our commands. An
+		// explicit `core.useReplaceRefs` in the gitconfig is read
+		// after the command line by some versions of git and would
+		// switch them back on, so override that setting, too:
 		"--no-replace-objects",
+		"-c", "core.useReplaceRefs=false",
 
 		// Disable the warning that grafts are deprecated, since we
 		// want to set the grafts file to `/dev/null` below (to
